@@ -154,8 +154,14 @@ def gen_alloc(rnd):
         if rnd.random() < 0.6:
             threads.append([(c, ('close', 200))])
     nopen = sum(len(t) for t in threads if t[0][1][0] == 'open')
-    return dict(nchan=nchan, threads=threads,
-                channel_max=rnd.choice([0, nchan + nopen, nchan + nopen + 1]))
+    ev = []
+    if nchan and rnd.random() < 0.5:
+        # the broker closes one of the existing channels while the others open new ones
+        ev = [(rnd.randrange(0, 2), ('chclose', rnd.randrange(1, nchan + 1), 404))]
+    # only what the broker says about Channel.Open counts here (an application close crossing
+    # the broker's close of the same channel is not a channel-number matter)
+    return dict(nchan=nchan, threads=threads, events=ev, viol_filter='Channel.Open',
+                channel_max=rnd.choice([0, nchan + nopen, nchan + nopen + 1, max(1, nchan)]))
 
 
 def gen_chclose(rnd):
